@@ -324,11 +324,12 @@ axisymmetrical generalised plane stress the `ALTERED` tensor is the condensed on
 Schur complement with respect to the third normal component, third row and column zero). `g`, `g'` are the
 garbage pre-filled in the output tensors. -/
 
-theorem iso_TRIDIM_spec (E nu g : K) (h : Admissible E nu) :
-    Gen.iso_TRIDIM_UNALT_all c c3 fn E nu g = isoStiff (nu * E / ((1 + nu) * (1 - 2 * nu))) (E / (2 * (1 + nu)))
-      ∧ Gen.iso_TRIDIM_UNALT_all c c3 fn E nu g = Gen.stiffness_YN_all c c3 fn E nu := by
-  have e : Gen.iso_TRIDIM_UNALT_all c c3 fn E nu g = Gen.stiffness_YN_all c c3 fn E nu := by c21_eq
-  exact ⟨by rw [e, stiffness_YN_spec c c3 fn E nu h], e⟩
+theorem iso_TRIDIM_spec (E nu g : K) :
+    Gen.iso_TRIDIM_UNALT_all c c3 fn E nu g = isoStiff (nu * E / ((1 + nu) * (1 - 2 * nu))) (E / (2 * (1 + nu))) := by
+  c21_eq
+theorem iso_TRIDIM_eq_stiffness_YN (E nu g : K) (h : Admissible E nu) :
+    Gen.iso_TRIDIM_UNALT_all c c3 fn E nu g = Gen.stiffness_YN_all c c3 fn E nu := by
+  rw [iso_TRIDIM_spec, stiffness_YN_spec c c3 fn E nu h]
 
 theorem iso_AGPE_UNALT_reduction (E nu g g' : K) :
     Gen.iso_AGPE_UNALT_all c c3 fn E nu g = block3 (Gen.iso_TRIDIM_UNALT_all c c3 fn E nu g') := by c21_eq
@@ -516,7 +517,9 @@ theorem ortho_TRIDIM_isotropic_case (E nu g g' : K) (h : Admissible E nu) :
 give the tensor with components 22↔33 and 12↔13 exchanged -/
 theorem ortho_TRIDIM_swap23 (E1 E2 E3 nu12 nu23 nu13 G12 G23 G13 g g' : K) (h1 : E1 ≠ 0) (h2 : E2 ≠ 0) (h3 : E3 ≠ 0) :
     Gen.ortho_TRIDIM_UNALT_all c c3 fn E1 E3 E2 nu13 (nu23 * E3 / E2) nu12 G13 G23 G12 g
-      = sub 6 [0, 2, 1, 4, 3, 5] (Gen.ortho_TRIDIM_UNALT_all c c3 fn E1 E2 E3 nu12 nu23 nu13 G12 G23 G13 g') := by c21_eq
+      = sub 6 [0, 2, 1, 4, 3, 5] (Gen.ortho_TRIDIM_UNALT_all c c3 fn E1 E2 E3 nu12 nu23 nu13 G12 G23 G13 g') := by
+  have key : -(nu23 * E3 / E2) / E3 = -nu23 / E2 := by field_simp
+  c21_unfold; simp only [key]; c21_close
 
 /-! ### reduction to each modelling hypothesis (no axes convention argument) -/
 
